@@ -90,7 +90,7 @@ def run(ctx):
     K.lean_verdict(ctx)
     corrs = []
     if K.build_hx(ctx) and K.build_drv(ctx):
-        args = ["%s=%s" % (k, facts.get(k, "unknown")) for k in ("countAfterLock", "createPreFalse", "expiredHoldsCapMu", "expiredCountsAll")]
+        args = ["%s=%s" % (k, facts.get(k, "unknown")) for k in ("countAfterLock", "createPreFalse", "expiredHoldsCapMu", "expiredCountsAll", "shiftReevaluatesFilter")]
         c = P.correspondence_observed(ctx, "C12", args, annotate)
         corrs.append(("C12", args, c))
         # genuinely concurrent cap-bearing RPCs (PatchTreasures, PatchExpired, Deletes in flight, ShiftMatching);
